@@ -109,6 +109,9 @@ func newPool(maxPaths, workers int) *Pool {
 }
 
 func (p *Pool) push(w int, it workItem) {
+	if p == nil {
+		return // concrete re-execution: alternatives are not explored
+	}
 	p.mu.Lock()
 	p.stacks[w] = append(p.stacks[w], it)
 	p.mu.Unlock()
@@ -277,7 +280,7 @@ func (ex *Explorer) branchAux(cond *Term, aux uint64) bool {
 		alt := append(append([]dec(nil), p.taken...), dec{b2i(!mv), aux})
 		ex.pool.push(ex.id, workItem{prefix: alt, model: m})
 	case Unknown:
-		ex.inconclusive("solver unknown at branch: " + strings.Join(ex.solver.lastErrors(), "; "))
+		ex.inconclusive("solver unknown at branch: " + strings.Join(ex.solver.lastErrors(), "; ") + " on path " + ex.describePath())
 	}
 	if res == Unsat {
 		// implied by the path condition: recorded (for exact re-execution) but no constraint
